@@ -17,7 +17,7 @@ CLAIMS = {
              'sorted only when empty (FRESH); every order-sensitive reader goes through the freshened, locked index '
              '(ORDERED-READ); the sort is stable with key (start,end,enforce) derived from the public mutator\'s '
              'parameters and Pre<Normal<Post (SORTKEY); mutation needs &mut (W-MUT compile-fail witness). NOT decided: '
-             'the splice loops (copy/emit/consume arithmetic, clamping).',
+             'the splice loops (copy/emit/consume arithmetic, clamping). Added: every slice bound in source()/rope() is clamped to the inner length (CLAMP) and both splice implementations share one position skeleton (SIBLING-SPLICE); the arithmetic itself remains undecided.',
         technique='MIR post-dominator / dominator / def-use rules over resolved callees and field accesses + '
                   'compile-fail witness',
         design_ref='§5 C05'),
@@ -28,7 +28,7 @@ CLAIMS = {
              'ones (cover columns and final_source) (KEY); cached maps and the memoised hash are write-once — only '
              'readers and first-writers (VacantEntry::insert / Entry::or_insert*) touch the map cache, the cache fields '
              'are never reassigned (WRITEONCE); memo cells are used through get/get_or_init/clone only and every initialiser '
-             'reads data fields only (MEMO). NOT decided: that replay from (cached map + rope) attributes like the wrapped source.',
+             'reads data fields only (MEMO). NOT decided: that replay from (cached map + rope) attributes like the wrapped source. Added: both map collectors (map() and the cache-filling tee) feed every mapping to the encoder unconditionally (ENCODE-ALL), a necessary condition of replay transparency; content views forward (DELEG).',
         technique='who-may-call / receiver-type allow-list over resolved callees, def-use key provenance on MIR',
         design_ref='§5 C10'),
     'C14': dict(
@@ -37,7 +37,7 @@ CLAIMS = {
              'calls on self) reads cache state except through a memo accessor, memo cells are never compared/hashed/mutated '
              'themselves and all initialisers of a cell agree (MEMO); `==` of every type compares every data field (EQCOVER); '
              'Hash reads no data field Eq ignores, i.e. a==b implies equal hashes (HASH-IN-EQ); every hand-written Clone copies '
-             'every data field from self (CLONECOVER). NOT decided: "equal values give equal answers from every observer" as behaviour.',
+             'every data field from self (CLONECOVER). NOT decided: "equal values give equal answers from every observer" as behaviour. Also registered here because the clauses depend on them: RESET/FRESH (the sorted accessor MEMO trusts is pure only if they hold), KEY/WRITEONCE (repeating an observer call never changes its answer), HASHALL (a container hash covers every element).',
         technique='field-access-set analysis (A-FIELDS) over Eq/Hash/Clone cones on MIR; DATA/CACHE classification by Freeze',
         design_ref='§5 C14'),
     'C18': dict(
@@ -54,7 +54,7 @@ CLAIMS = {
         text='Static, for all pairs of values: every data field that `==` compares is fed to the hasher, with named exemptions '
              '(SourceMapSource::name per the statement; fields constant in every constructor) (HASHCOVER); hash cones contain no '
              'address/TypeId/random/time/thread input, no hash-map iteration and construct only FxHasher (HASHDET); the memoised '
-             'hash is a function of the data only (MEMO). NOT decided: absence of accidental collisions, prefix-freeness.',
+             'hash is a function of the data only (MEMO). NOT decided: absence of accidental collisions, prefix-freeness. Added: HASHALL (no skipped elements in container hashes); RESET/FRESH/PUBLISH-ORDER are registered here too because the hash of a ReplaceSource goes through the sorted accessor.',
         technique='field-access-set comparison of Eq vs Hash cones; forbidden-callee scan over resolved callees',
         design_ref='§5 C20'),
     'C12': dict(
@@ -63,7 +63,7 @@ CLAIMS = {
              'alphabet, the 256-entry decoder table is its exact inverse with two distinct separator codes and one invalid code '
              '(TABLES, const-evaluated by the compiler, 320 entries); every byte any writer can put into an encoder buffer is a '
              'base64 digit, "," or ";" (ALPHABET, sound over-approximation over all writers incl. helper functions and closures). '
-             'NOT decided: VLQ arithmetic, relative-field state, skip rules, the line-only encoder, round-trip equality.',
+             'NOT decided: VLQ arithmetic, relative-field state, skip rules, the line-only encoder, round-trip equality. Added: LINE-RESET — the decoder resets the running column whenever it advances the line, the full encoder resets its column state whenever it writes a semicolon.',
         technique='compiler const-evaluation of the codec tables + constant byte-set dataflow into the encoder buffers',
         design_ref='§5 C12'),
     'C15': dict(
@@ -72,7 +72,7 @@ CLAIMS = {
              'accepts (plus constant "version"), each bound to its namesake field (JSON-NAMES, read from the derived impls\' MIR '
              'and FIELDS constant), and through TryFrom every field is rebuilt from the raw field its own key is read into '
              '(JSON-FLOW) — so each field survives a round trip by name; several fields share a type, so a swap would compile. '
-             'NOT decided: escaping, parser totality, value equality after the round trip (simd-json/serde behaviour).',
+             'NOT decided: escaping, parser totality, value equality after the round trip (simd-json/serde behaviour). Added: Option fields are skipped by Option::is_none only (JSON-SKIP: a present-but-empty value survives); the from_* cones touch no static / thread-local state (JSON-PURE).',
         technique='constant/def-use extraction from derived Serialize/Deserialize MIR; field-flow through TryFrom',
         design_ref='§5 C15'),
     'C17': dict(
@@ -83,7 +83,7 @@ CLAIMS = {
              'has no recursion and its only loop consumes a slice iterator (DECODER-TOTAL; dev and, in thorough, release '
              'configuration); SourceMap::from_json/from_slice/from_reader add no panic site of their own and propagate every error '
              '(JSON-ENTRY; simd-json itself assumed total). NOT decided: panic-freedom of the streaming cone (≈250 arithmetic asserts, '
-             'indexing on map-supplied lines/indices) — reading found real panics there for wild maps; no discharge analysis is in reach.',
+             'indexing on map-supplied lines/indices) — reading found real panics there for wild maps; no discharge analysis is in reach. Added: CLAMP — ReplaceSource::source()/rope() slice the inner text only with bounds clamped to its length (replacement positions beyond the end are in the documented domain).',
         technique='interval/range discharge of MIR Assert terminators with guard provenance; loop/recursion census; panic-site census',
         design_ref='§5 C17'),
     'C07': dict(
@@ -92,7 +92,7 @@ CLAIMS = {
              'data fields, or the same-named view of the children, or the type\'s own source() — and so are the two text views '
              '(source, rope); wrappers forward each view to the same view of the wrapped source (DELEG); no to_writer body drops, unwraps or '
              'ignores a writer error: each io::Result is returned or propagated with `?` (IOERR). NOT decided: that rope() renders to source(), '
-             'concatenation order, lossy decoding, the prefix property of a failed write.',
+             'concatenation order, lossy decoding, the prefix property of a failed write. Added: writes go to the caller\'s writer or to an adapter with a propagated post-dominating flush (IOERR-SINK); ReplaceSource\'s two splice implementations agree on their position skeleton (SIBLING-SPLICE).',
         technique='view-basis comparison (field-access sets + resolved trait callees per view) and def-use of call results on MIR',
         design_ref='§5 C07'),
     'C13': dict(
@@ -101,7 +101,7 @@ CLAIMS = {
              'wrapped source": BoxSource (6 Source methods + stream_chunks) and CachedSource (5 content views) make exactly one Source '
              'call, the same-named method on the wrapped object with their own parameters in order, and return its result; ConcatSource\'s '
              'single-child fast paths and ReplaceSource::map forward likewise (DELEG D3). NOT decided: attribution equality of regrouped '
-             'trees, closing segments through boxed concats, empty-source neutrality.',
+             'trees, closing segments through boxed concats, empty-source neutrality. Added: STICKY (empty children cannot swallow a pending close) and ENCODE-ALL (the map recorded while streaming a CachedSource is the full map).',
         technique='forwarding check over resolved trait callees, argument provenance and result flow on MIR',
         design_ref='§5 C13'),
     'C19': dict(
@@ -126,7 +126,7 @@ CLAIMS = {
              'caller-supplied chunk callback passes Some(..), a `then_some` whose condition evaluates to true, or a chunk forwarded from a '
              'stream that was itself requested with final_source = false; text-less emissions are proved unreachable (TEXT). A MapOptions with '
              'final_source != false exists only as a by-reference temporary of a stream call (OPTS-LIT) and cannot be built outside the crate '
-             '(W-OPTS compile-fail witness). NOT decided: sentence 1 (concatenated chunk text equals source()).',
+             '(W-OPTS compile-fail witness). NOT decided: sentence 1 (concatenated chunk text equals source()). Added after the independent breakage round: source() and rope() of ReplaceSource slice the inner text with the same normalised position skeleton (SIBLING-SPLICE) — a necessary condition of sentence 1 for cached replays, which re-split rope().',
         technique='SCCP-style conditional constant propagation on MIR with closure/cell linking + escape check + compile-fail witness',
         design_ref='§5 C01'),
     'C04': dict(
@@ -134,7 +134,7 @@ CLAIMS = {
         text='Static: the leaves the property rests on — every mapping an OriginalSource emits is the identity (original line/column are '
              'the very values reported as generated line/column, or both 0; source index 0; no name) and it announces exactly (0, its name '
              'field, Some(its own text)), field roles taken from the public constructor (IDENT). NOT decided: provenance through '
-             'Concat/Replace/Cached, statement-start resolution, columns=false attribution.',
+             'Concat/Replace/Cached, statement-start resolution, columns=false attribution. Added: ConcatSource\'s pending-close flag is sticky (cleared only after a test that found it set, otherwise OR-carried), so an empty child cannot swallow the segment that un-maps following raw text (STICKY). Still NOT decided: position arithmetic of ReplaceSource\'s generated-end info (seeded C04-m2 is not detected).',
         technique='def-use equality of aggregate operands on MIR',
         design_ref='§5 C04'),
     'C06': dict(
@@ -143,7 +143,7 @@ CLAIMS = {
              'either forwards the child numbering unchanged or renumbers through its tables, and every OriginalLocation it builds takes the index '
              'from the matching origin; a child-local index never leaks into a renumbered space (IDX: closure-, table- and adaptor-aware origin '
              'analysis); ReplaceSource advances the original column only under the content check (ADVANCE). NOT decided: positions, that the '
-             'translated entry is the right one beyond its numbering, the amount of the advance.',
+             'translated entry is the right one beyond its numbering, the amount of the advance. Added: the guard\'s verdict is the content check\'s own result for that site, not a remembered one (ADVANCE freshness); a chunk delivered with the child\'s own location object counts as child-local for both index kinds (IDX forwarded).',
         technique='index-space origin (taint-style) dataflow over MIR expression trees with closure capture and table summaries; guard provenance',
         design_ref='§5 C06'),
     'C08': dict(
@@ -151,7 +151,7 @@ CLAIMS = {
         text='Static: all four (columns, final) streaming variants of a map apply sourceRoot, announce the enumeration index of the very '
              'iteration and the content stored under it (ROOT); announcement loops complete before any point that can deliver a mapped chunk, '
              'and variants that never announce names overwrite the name index with None before every emission (EAGER); the dispatch reaches a '
-             'text-carrying variant whenever final_source = false (TEXT). NOT decided: the segment walk (active-mapping state machine, cut-offs).',
+             'text-carrying variant whenever final_source = false (TEXT). NOT decided: the segment walk (active-mapping state machine, cut-offs). Added: the line-only variants advance their per-line cursor from a segment only where the segment is known to have an original (FIRST-MAPPED). Still NOT decided: the active-mapping state machine of the column variants (seeded C08-m2 is not detected).',
         technique='sibling cross-check of announcer call arguments, loop/dominator ordering, SCCP on MIR',
         design_ref='§5 C08'),
     'C09': dict(
@@ -159,7 +159,7 @@ CLAIMS = {
         text='Static: the index-table discipline of the combined-map combinator — both index kinds are renumbered and both emitting '
              'aggregates take source/name indices only from the announced (global) numbering or tables filled from it; outer/inner local '
              'indices are used as keys only (IDX); each of its six de-duplication inserts stores len() and is followed by the announcement of '
-             'that value (PAIR). NOT decided: the binary search, identity-column adjustment, name matching, fallback semantics.',
+             'that value (PAIR). NOT decided: the binary search, identity-column adjustment, name matching, fallback semantics. Added: an announced fresh index is paired with an insertion into the same de-duplication map (PAIR converse); outer-name lookups that can reach an inner-mapped location are dominated by the name-vs-original-text comparison (NAMECHECK).',
         technique='index-space origin dataflow + post-dominator pairing on MIR',
         design_ref='§5 C09'),
     'C11': dict(
@@ -167,7 +167,7 @@ CLAIMS = {
         text='Static: in every chunk stream each new index is dense (len() of the de-duplication map) and announced with that same value '
              'on every path after insertion (PAIR, 10 sites); eager announcers complete before delivery and never-announced names are never '
              'emitted (EAGER); indices used come from the announced numbering (IDX); the mappings string consists only of base64 digits, "," '
-             'and ";" (ALPHABET, sound for that clause). NOT decided: strictly increasing positions, lines >= 1, positions inside the text.',
+             'and ";" (ALPHABET, sound for that clause). NOT decided: strictly increasing positions, lines >= 1, positions inside the text. Added: PAIR converse and IDX forwarded (see C09/C06). Still NOT decided: position arithmetic (seeded C11-m1 is not detected).',
         technique='post-dominator pairing, loop ordering, origin dataflow, constant byte-set dataflow on MIR',
         design_ref='§5 C11'),
 }
